@@ -80,4 +80,12 @@ func (c *validatorListConstructor) appendNodeValidators(node schema.Node) {
 	}
 
 	c.list = append(c.list, v)
+
+	if _, ok := v.(*anyNestedStructure); ok {
+		return
+	}
+	if _, ok := node.(schema.BranchNode); ok && node.Constraint(constraint.NullableConstraintType) != nil {
+		// A nullable array or object also admits the literal null.
+		c.list = append(c.list, newLiteralValidator(node, c.parent))
+	}
 }
